@@ -111,6 +111,13 @@ extern SimSyncHooks g_sync;
 extern int64_t g_sigaction_calls;
 enum { YK_ALLOC = 1, YK_FREE, YK_CLOCK, YK_MUTEX, YK_SIGNAL, YK_FILE, YK_CALLBACK, YK_ITER, YK_BB, YK_PRINT, YK_SEM, YK_THREAD, YK_DIR };
 
+// ------------------------------------------------- basic-block work counter --
+// Incremented at the head of every basic block of the yara translation units
+// compiled with -fsanitize-coverage=trace-pc (variant `cov`): the unit of work
+// for timeliness oracles, and a yield point for the thread scheduler.
+extern volatile uint64_t g_bb_count;
+extern void (*g_bb_hook)(const void* pc);
+
 // --------------------------------------------------------------- isolation --
 struct IsoResult {
   int kind;              // 0 = exited normally (code 0), 1 = sanitizer report, 2 = signal, 3 = timeout, 4 = other exit code
